@@ -204,6 +204,16 @@ def judge(case, m):
                     m.violation("proportion-validated", f"{text}: prediction reports trials {t2[:4].tolist()}, the new frame has "
                                 f"{tfun(new)[:4].tolist()}", case=c, key="prop:prediction")
                 results[(fn, trials)] = (R, t2)
+                if trials == "n_const":
+                    # the constant was bound at training (no such column there): a new frame that happens to carry
+                    # a column of that name, or a frame without any of the training columns, reports the same constant
+                    extra = new.copy()
+                    extra["n_const"] = np.arange(len(new)) + 1
+                    for fr, what in ((extra, "a column named like the constant"), (new[["x"]], "only x")):
+                        t3 = np.asarray(dm.response.evaluate_new_data(fr), dtype=float).reshape(-1)
+                        if t3.shape != (len(new),) or not np.array_equal(t3, tfun(new)):
+                            m.violation("proportion-validated", f"{text}: trials bound to the constant {const} at training, a new frame with {what} "
+                                        f"reports {t3[:4].tolist()}", case=c, key="prop:prediction-constant-rebound")
             except Exception as e:
                 m.violation("proportion-validated", f"{text}: {type(e).__name__}: {e}", case=c, key="prop:raises")
     bad = df.copy()
@@ -274,6 +284,29 @@ def judge(case, m):
                 m.violation("identity", f"{term} is not its argument", case={**case, "text": term}, key="identity")
         except Exception as e:
             m.violation("identity", f"{term}: {type(e).__name__}: {e}", case={**case, "text": term}, key="identity:raises")
+    # the identity of a categorical argument: same levels in the same (declared) order, same reference, same columns
+    for cname in ("s", "sc", "so"):
+        for term in (f"I({cname})", "{" + cname + "}"):
+            m.ev("identity")
+            name = f"I({cname})"
+            c = {**case, "text": term}
+            try:
+                d1, d0 = build("y ~ " + term), build("y ~ " + cname)
+                l1 = [x.replace(name, cname) for x in d1.common.as_dataframe().columns]
+                l0 = list(d0.common.as_dataframe().columns)
+                A1, A0 = np.asarray(d1.common.design_matrix, dtype=float), np.asarray(d0.common.design_matrix, dtype=float)
+                if l1 != l0 or A1.shape != A0.shape or not np.array_equal(A1, A0):
+                    m.violation("identity", f"{term} is not coded like {cname}: columns {l1} vs {l0}", case=c, key="identity:categorical")
+                    continue
+                N1 = np.asarray(d1.common.evaluate_new_data(new).design_matrix, dtype=float)
+                N0 = np.asarray(d0.common.evaluate_new_data(new).design_matrix, dtype=float)
+                if N1.shape != N0.shape or not np.array_equal(N1, N0):
+                    m.violation("identity", f"{term} is not coded like {cname} on new data", case=c, key="identity:categorical-new")
+                r1, r0 = build(term + " ~ x").response, build(cname + " ~ x").response
+                if list(r1.levels or []) != list(r0.levels or []) or not np.array_equal(np.asarray(r1.design_matrix, dtype=float), np.asarray(r0.design_matrix, dtype=float)):
+                    m.violation("identity", f"response {term}: levels {r1.levels} vs {r0.levels} of {cname}", case=c, key="identity:categorical-response")
+            except Exception as e:
+                m.violation("identity", f"{term}: {type(e).__name__}: {e}", case=c, key="identity:categorical-raises")
     # ---- aliases ----------------------------------------------------------------------------
     r, o = s_lv[1], s_lv[-1]
     q = lambda v: "'" + v + "'"  # noqa: E731
